@@ -182,3 +182,32 @@ def kind_tables(prop="C11"):
                           desc=f"documented kind '{k}' selects the collection '{coll}'",
                           replay=None if ok else {"confirmed": True, "input": k, "actual": live.get(k), "expected": coll}))
     return out
+
+
+def href_obligations(prop="C16", replay=None):
+    """FordLinkProcessor.convert_link: the href of a [[...]] link.  An entity of an external project carries an absolute URL (`external_url`): an http(s) URL is used as
+    it stands; a local path (an external project given as a directory) must *replace* the base directory, which is what pathlib's `/` does with an absolute right operand
+    (path algebra rule used for C19 as well) - string concatenation would bury it inside this project's own output tree.  Then the result is made relative to the page."""
+    import ast
+    from harness import loader
+    from harness.core import OR, PROVED, REFUTED, UNKNOWN
+    oid = f"{prop}.S.convert_link.absolute_target_replaces_the_base"
+    try:
+        fn = loader.find_def("ford._markdown", "FordLinkProcessor.convert_link")
+    except loader.TargetMissing as e:
+        return [OR(id=oid, status=UNKNOWN, kind="S", target="ford._markdown.FordLinkProcessor.convert_link", detail=str(e))]
+    sites = [n for n in ast.walk(fn) if isinstance(n, ast.Assign) and any(ast.unparse(t) == "full_url" for t in n.targets)]
+    rel = [n for n in ast.walk(fn) if isinstance(n, ast.Assign) and any(ast.unparse(t) == "rel_url" for t in n.targets) and isinstance(n.value, ast.Call) and ast.unparse(n.value.func) == "relpath"]
+    if len(sites) != 1 or not rel:
+        return [OR(id=oid, status=UNKNOWN, kind="S", target="ford._markdown.FordLinkProcessor.convert_link", detail=f"expected `full_url = ...` and `rel_url = relpath(...)`, found {len(sites)} / {len(rel)}")]
+    v = sites[0].value
+    ok = isinstance(v, ast.BinOp) and isinstance(v.op, ast.Div) and ast.unparse(v.left) == "self.md.base_url" and ast.unparse(v.right) == "item_url" \
+        and ast.unparse(rel[0].value.args[0]) == "full_url"
+    r = OR(id=oid, status=PROVED if ok else REFUTED, kind="S", role="post", backend="ast", target="ford._markdown.FordLinkProcessor.convert_link",
+           desc=f"`{ast.unparse(sites[0])}`: the target is joined to the base directory with pathlib's `/` (an absolute URL of a local external project wins) and then made relative")
+    if not ok:
+        r.witness = {"assignment": ast.unparse(sites[0])}
+        r.detail = "not a pathlib join of self.md.base_url and item_url: an absolute target is appended behind the base directory"
+        if replay:
+            r.replay = replay()
+    return [r]
